@@ -192,17 +192,29 @@ def tracksites(rep, c, sfx, trackpath):
     for a in ("Ok", "Err"):
         if a not in seen_arms:
             r.violation("site:%s" % a, where(rule["body"]), "no tracking call in the %s arm of rule()" % a)
-    # track(): atomic early return
-    tctx = hirq.Ctx(track)
-    first = track["body"]["stmts"][0] if track["body"].get("stmts") else None
-    ok = False
-    if first is not None and first.get("k") in ("Expr", "Semi") and kind(first["e"]) == "If":
-        t = cond_variant_test(first["e"]["cond"], "atomicity", ATOM)
-        ok = t == ("==", "Atomic") and hirq.diverges(first["e"]["then"])
-    r.instance("track:atomic-return", where(track["body"]))
-    if not ok:
-        r.violation("track:atomic-return", where(track["body"]), "track no longer returns immediately in atomic "
-                    "mode: rules inside an atomic rule's interior get reported")
+    # track(): nothing is recorded in atomic mode - every path that mutates the attempt state has first seen
+    # `atomicity == Atomic` evaluate to false
+    pe = PathEnum(track)
+    ok = True
+    tested = 0
+    for (ev, out) in exits(pe.paths()):
+        mi = hirq.index_of(ev, lambda e: (e.kind == "assign" and (hirq.place(e.node["l"]) or ("", 0, [""]))[2][-1:] and
+                                           (hirq.place(e.node["l"]) or ("", 0, [""]))[2][-1] in FIELDS)
+                           or (e.kind == "call" and kind(e.node) == "MethodCall" and e.node["m"] in ("push", "clear", "truncate")
+                               and (vec_field_of(e.node["recv"]) or hirq.local_id(e.node["recv"]) is not None)))
+        if mi < 0:
+            continue
+        tested += 1
+        gi = hirq.index_of(ev[:mi], lambda e: e.kind == "cond" and cond_variant_test(e.node, "atomicity", ATOM) == ("==", "Atomic")
+                           and e.extra is False)
+        gi2 = hirq.index_of(ev[:mi], lambda e: e.kind == "cond" and cond_variant_test(e.node, "atomicity", ATOM) == ("!=", "Atomic")
+                            and e.extra is True)
+        if gi < 0 and gi2 < 0:
+            ok = False
+    r.instance("track:atomic-return", where(track["body"]), "%d recording paths" % tested)
+    if not ok or tested == 0:
+        r.violation("track:atomic-return", where(track["body"]), "a path of track records an attempt without having "
+                    "tested that the mode is not Atomic: rules inside an atomic rule's interior get reported")
     # choice of the vector
     chosen = None
     for n in walk(track["body"]):
